@@ -1,3 +1,37 @@
+/-
+  Composition of the block-level theorems, TABLES and INDENTED CODE BLOCKS included (C03, fourth fragment).
+
+  `Proofs/ComposeCode.lean` proves that a document written out from a tree of paragraphs, ATX and setext headings, thematic
+  breaks, block quotes, lists and fenced code blocks (`ComposeC.T3`) parses to that tree and renders to the HTML written
+  directly from it.  This file restates that development for the tree type `T4`, which adds one constructor `leaf l` for
+  two kinds of leaves (`Leaf`):
+
+  * `table hdr del rows` - a GFM table: header row, delimiter row (per column `---`, `:--`, `:-:`, `--:` with any number of
+    hyphens and any padding), body rows; every row with or without the outer pipes; cells of inert text with any padding;
+    body rows with fewer or more cells than columns; at top level, inside quotes and inside list items, to any depth;
+  * `icode lines` - an indented code block: lines indented by four spaces and more, interior lines of whitespace; at top
+    level, inside quotes and inside list items (not as the first block of an item), to any depth.
+
+  New ingredients (the rest is `ComposeCode.lean`'s argument restated for `T4`, the two leaves handled through one
+  constructor; its lemmas that speak of lines only are used as they are):
+  * `Table.read` over the written lines (`tableLoop_body`, `readTable_block`), the dispatcher on the header line
+    (`HeadFacts`; automatic for a line that begins with a pipe: `pipe_headFacts`; `tokenize_table`).  A table is one of the
+    blocks C05 counts as closed by a blank line (`closedE`), so `nodes_step_closed` applies;
+  * `BlockCode.read` over indented lines with interior blank lines and its bookkeeping of trailing whitespace-only lines
+    (`blockCodeLoop_run`, `readBlockCode_run`): an indented code block is NOT closed by a blank line (an indented line
+    behind it goes on the block), so the dispatcher is followed over it directly (`ThenClaim` with `CodeStop`), and
+    well-formedness asks that the next sibling not begin with four spaces (`sepOk4`);
+  * `TableRow.__init__` on a written row: `strip`, the split at the pipes, the filter of empty strings, `zip_longest`
+    with the alignments (`row_cells`, `go_cells`, `tableRow_row`); the delimiter row under
+    `Table.delimiter_row_pattern`, `column_align_pattern.findall` and `parse_align` (`delimiterRow_line`,
+    `findAligns_line`, `mapRes_cores`): proved for every row of the shape, no check left to evaluation;
+  * the content of a code block: `''.join(lines).strip('\n') + '\n'` gives the joined lines back (`codeContent_eq`);
+  * the HTML of a table (`tableHtml`, `flat_leaf`).
+
+  Main theorems: `C03_table_block_phase_partial`, `C03_table_tokenize_partial`, `C03_table_document_partial`,
+  `C03_table_render_partial`, `C03_table_html_partial`.  Non-vacuity examples, the comparison with kernel evaluation and
+  the findings are in `Proofs/ComposeTable2.lean`.
+-/
 import Mistletoe.Proofs.ComposeCode
 namespace Mistletoe.ComposeT
 open Mistletoe Mistletoe.Py Mistletoe.Scan Mistletoe.Compose
@@ -150,8 +184,8 @@ open Mistletoe.MdRound (ind4 ind4_blockCodeStart ind4_strip ind4_html)
     whitespace loses four columns if it has five or more characters and all its spaces otherwise -/
 def codePiece (l : Str) : Str := if isBlank l then (if l.length < 5 then lstripSp l else l.drop 4) else l.drop 4
 
-/-- the count of trailing "\n" lines `BlockCode.read` keeps -/
-def tbStep (tb : Nat) (l : Str) : Nat := if isBlank l then (if l == ['\n'] then tb + 1 else 0) else 0
+/-- the count of trailing whitespace-only lines `BlockCode.read` keeps -/
+def tbStep (tb : Nat) (l : Str) : Nat := if isBlank l then tb + 1 else 0
 
 /-- a line of an indented code block: whitespace only, or four spaces and more -/
 def CodeLine (l : Str) : Prop := isBlank l = true ∨ (isBlank l = false ∧ ∃ t, l = ind4 t)
@@ -170,12 +204,12 @@ theorem blockCodeLoop_run (post : List Line) (start : Nat) :
         (fun y hy => h y (List.mem_cons_of_mem _ hy))
       simp only [blockCodeLoop, peek_at, hb, if_true, MdRound.fw_next]
       have e1 : (if x.s.length < 5 then lstripSp x.s else x.s.drop 4) = codePiece x.s := by simp [codePiece, hb]
-      have e2 : (if x.s == ['\n'] then tb + 1 else 0) = tbStep tb x.s := by simp [tbStep, hb]
+      have e2 : tb + 1 = tbStep tb x.s := by simp [tbStep, hb]
       rw [e1, e2, ih]
       simp
     · have ih := blockCodeLoop_run post start cs (pre ++ [x]) (codePiece x.s :: buf) fuel (tbStep tb x.s)
         (fun y hy => h y (List.mem_cons_of_mem _ hy))
-      have hs : blockCodeStart x.s = true := by rw [ht]; exact ind4_blockCodeStart t
+      have hs : blockCodeStart x.s = true := by rw [ht]; exact ind4_blockCodeStart t (by rw [← ht]; exact hnb)
       have hst : blockCodeStrip x.s 0 = codePiece x.s := by
         simp only [codePiece, hnb, Bool.false_eq_true, if_false]
         rw [ht, ind4_strip]; rfl
@@ -250,7 +284,7 @@ theorem tokLoop_icode_step (ti : Bool) (g : Nat) (cs : List Line) (last : Line) 
     · rw [hb] at hnb; cases hnb
     · exact ⟨t, ht⟩
   have f3 : htmlBlockStart l.s = .ok none := by rw [ht]; exact ind4_html t
-  have f4 : blockCodeStart l.s = true := by rw [ht]; exact ind4_blockCodeStart t
+  have f4 : blockCodeStart l.s = true := by rw [ht]; exact ind4_blockCodeStart t (by rw [← ht]; exact hnb)
   have e : g + 8 = ((g + 5) + 1 + 1) + 1 := by omega
   rw [e]
   simp only [List.cons_append] at hrd ⊢
@@ -513,18 +547,397 @@ def DRow.line (d : DRow) : Str :=
   (if d.lead then ['|'] else []) ++ (joinBar (d.cells.map DCell.text) ++ (if d.trail then ['|'] else [])) ++ ['\n']
 def DRow.aligns (d : DRow) : List (Option Nat) := d.cells.map DCell.align
 
-def alignsB (s : Str) (al : List (Option Nat)) : Bool :=
-  match mapRes parseAlign (findAligns s) with
-  | .ok a => a == al
-  | .err _ => false
+/-! ### The delimiter row: the scanners on the written shape -/
 
-/-- the delimiter row as written: one or more cells, each with at least one hyphen; it has a `|` (`Table.read` collects
-    lines while they have one); and the facts about the scanners the proof uses - `Table.delimiter_row_pattern` matches the
-    line and `column_align_pattern.findall` + `parse_align` give the alignments of the cells (every row of the shape has
-    them; the example in `Proofs/ComposeTable2.lean` checks all small rows) -/
+/-- the visible part of a delimiter cell -/
+def DCell.core (d : DCell) : Str :=
+  (if d.cl then [':'] else []) ++ (List.replicate d.dashes '-' ++ (if d.cr then [':'] else []))
+
+theorem DCell.text_eq (d : DCell) : d.text = sp d.padL ++ (d.core ++ sp d.padR) := by
+  simp [DCell.text, DCell.core, List.append_assoc]
+
+/-- not a hyphen and not a colon: the characters that may follow the visible part of a delimiter cell -/
+def Brk (tail : Str) : Prop := ∀ x, tail.head? = some x → x ≠ '-' ∧ x ≠ ':'
+
+theorem span_dash (m : Nat) (tail : Str) (h : ∀ x, tail.head? = some x → x ≠ '-') :
+    span (· == '-') ('-' :: (List.replicate m '-' ++ tail)) = ('-' :: List.replicate m '-', tail) := by
+  have := MdRound.span_append (· == '-') ('-' :: List.replicate m '-') tail
+    (by intro x hx; rcases List.mem_cons.mp hx with rfl | hx; rfl; simp [(List.mem_replicate.mp hx).2])
+    (by intro x hx; simpa using h x hx)
+  simpa using this
+
+/-- `alignCol` on a text that does not begin with a colon, resp. that does -/
+theorem alignCol_plain (s : Str) (h : ∀ r, s ≠ ':' :: r) :
+    alignCol s = (if (span (· == '-') s).1.isEmpty then none else
+      match (span (· == '-') s).2 with
+      | ':' :: r2 => some ((span (· == '-') s).1 ++ [':'], r2)
+      | _ => some ((span (· == '-') s).1, (span (· == '-') s).2)) := by
+  unfold alignCol
+  split
+  rename_i c1 r' heq
+  split at heq
+  · rename_i r; exact absurd rfl (h r)
+  · cases heq
+    rfl
+
+theorem alignCol_colon (r : Str) :
+    alignCol (':' :: r) = (if (span (· == '-') r).1.isEmpty then none else
+      match (span (· == '-') r).2 with
+      | ':' :: r2 => some (':' :: (span (· == '-') r).1 ++ [':'], r2)
+      | _ => some (':' :: (span (· == '-') r).1, (span (· == '-') r).2)) := by
+  unfold alignCol
+  rfl
+
+theorem tail_match {α : Type} (f : Str → α) (a : α) : ∀ (tail : Str), Brk tail →
+    (match tail with
+      | ':' :: r2 => f r2
+      | _ => a) = a := by
+  intro tail ht
+  split
+  · exact absurd rfl (ht ':' rfl).2
+  · rfl
+
+theorem alignCol_d (m : Nat) (tail : Str) (ht : Brk tail) :
+    alignCol ('-' :: (List.replicate m '-' ++ tail)) = some ('-' :: List.replicate m '-', tail) := by
+  have hs := span_dash m tail (fun x hx => (ht x hx).1)
+  rw [alignCol_plain _ (by intro r h; exact absurd (List.cons.inj h).1 (by decide)), hs]
+  simp only [List.isEmpty_cons, Bool.false_eq_true, if_false]
+  exact tail_match _ _ tail ht
+
+theorem alignCol_dc (m : Nat) (tail : Str) :
+    alignCol ('-' :: (List.replicate m '-' ++ ':' :: tail)) = some ('-' :: List.replicate m '-' ++ [':'], tail) := by
+  have hs := span_dash m (':' :: tail) (fun x hx => by simp at hx; subst hx; decide)
+  rw [alignCol_plain _ (by intro r h; exact absurd (List.cons.inj h).1 (by decide)), hs]
+  simp only [List.isEmpty_cons, Bool.false_eq_true, if_false]
+
+theorem alignCol_cd (m : Nat) (tail : Str) (ht : Brk tail) :
+    alignCol (':' :: '-' :: (List.replicate m '-' ++ tail)) = some (':' :: '-' :: List.replicate m '-', tail) := by
+  have hs := span_dash m tail (fun x hx => (ht x hx).1)
+  rw [alignCol_colon, hs]
+  simp only [List.isEmpty_cons, Bool.false_eq_true, if_false]
+  exact tail_match _ _ tail ht
+
+theorem alignCol_cdc (m : Nat) (tail : Str) :
+    alignCol (':' :: '-' :: (List.replicate m '-' ++ ':' :: tail)) = some (':' :: '-' :: List.replicate m '-' ++ [':'], tail) := by
+  have hs := span_dash m (':' :: tail) (fun x hx => by simp at hx; subst hx; decide)
+  rw [alignCol_colon, hs]
+  simp only [List.isEmpty_cons, Bool.false_eq_true, if_false]
+
+theorem alignCol_core (d : DCell) (hd : 1 ≤ d.dashes) (tail : Str) (ht : Brk tail) :
+    alignCol (d.core ++ tail) = some (d.core, tail) := by
+  obtain ⟨m, hm⟩ : ∃ m, d.dashes = m + 1 := ⟨d.dashes - 1, by omega⟩
+  unfold DCell.core
+  rw [hm, List.replicate_succ]
+  cases d.cl <;> cases d.cr
+  · simpa using alignCol_d m tail ht
+  · simpa using alignCol_dc m tail
+  · simpa using alignCol_cd m tail ht
+  · simpa using alignCol_cdc m tail
+
+theorem core_ne (d : DCell) (hd : 1 ≤ d.dashes) : ∃ c r, d.core = c :: r ∧ (c = ':' ∨ c = '-') := by
+  obtain ⟨m, hm⟩ : ∃ m, d.dashes = m + 1 := ⟨d.dashes - 1, by omega⟩
+  unfold DCell.core
+  rw [hm, List.replicate_succ]
+  cases d.cl
+  · exact ⟨'-', _, rfl, Or.inr rfl⟩
+  · exact ⟨':', _, rfl, Or.inl rfl⟩
+
+/-- what follows the visible part of a cell: its right padding is written separately; then the remaining cells, each behind
+    a pipe, then the optional closing pipe and the line end -/
+def restLine (trail : Bool) : List DCell → Str
+  | [] => (if trail then ['|'] else []) ++ ['\n']
+  | c :: cs => '|' :: (sp c.padL ++ (c.core ++ (sp c.padR ++ restLine trail cs)))
+
+theorem joinBar_rest (trail : Bool) : ∀ (c0 : DCell) (cs : List DCell),
+    joinBar ((c0 :: cs).map DCell.text) ++ (if trail then ['|'] else []) ++ ['\n'] =
+      sp c0.padL ++ (c0.core ++ (sp c0.padR ++ restLine trail cs))
+  | c0, [] => by simp [joinBar, DCell.text_eq, restLine]
+  | c0, c1 :: cs => by
+    have ih := joinBar_rest trail c1 cs
+    rw [List.map_cons, List.map_cons, joinBar_cons2, ← List.map_cons, List.append_assoc, List.append_assoc, List.cons_append,
+      ← List.append_assoc (joinBar _), ih]
+    simp [DCell.text_eq, restLine]
+
+theorem drow_line (d : DRow) (c0 : DCell) (cs : List DCell) (h : d.cells = c0 :: cs) :
+    d.line = (if d.lead then ['|'] else []) ++ (sp c0.padL ++ (c0.core ++ (sp c0.padR ++ restLine d.trail cs))) := by
+  unfold DRow.line
+  rw [h, List.append_assoc, List.append_assoc, ← List.append_assoc (joinBar _), joinBar_rest]
+
+theorem ws_sp : ∀ x ∈ sp n, ws x = true := by
+  intro x hx; simp only [sp, List.mem_replicate] at hx; rw [hx.2]; decide
+
+theorem span_ws_sp (n : Nat) (rest : Str) (h : ∀ x, rest.head? = some x → ws x = false) : span ws (sp n ++ rest) = (sp n, rest) :=
+  MdRound.span_append ws _ _ ws_sp h
+
+theorem rest_brk (trail : Bool) (r : Nat) (cs : List DCell) : Brk (sp r ++ restLine trail cs) := by
+  intro x hx
+  cases r with
+  | succ r' => simp [sp, List.replicate_succ] at hx; subst hx; decide
+  | zero =>
+    cases cs with
+    | nil => cases trail <;> simp [sp, restLine] at hx <;> subst hx <;> decide
+    | cons c cs' => simp [sp, restLine] at hx; subst hx; decide
+
+theorem delimRest_rest (trail : Bool) : ∀ (cs : List DCell) (fuel : Nat), cs.length < fuel → (∀ c ∈ cs, 1 ≤ c.dashes) →
+    ∀ (r : Nat), delimRest fuel (sp r ++ restLine trail cs) = true
+  | [], fuel, hf, _, r => by
+    obtain ⟨f, rfl⟩ : ∃ f, fuel = f + 1 := ⟨fuel - 1, by simp at hf; omega⟩
+    cases trail with
+    | false =>
+      have : span ws (sp r ++ restLine false []) = (sp r ++ ['\n'], []) := by
+        have := MdRound.span_append ws (sp r ++ ['\n']) [] (by
+          intro x hx; rcases List.mem_append.mp hx with hx | hx
+          · exact ws_sp x hx
+          · simp at hx; subst hx; decide) (by simp)
+        simpa [restLine] using this
+      simp [delimRest, this]
+    | true =>
+      have h1 : span ws (sp r ++ restLine true []) = (sp r, '|' :: ['\n']) := by
+        have := span_ws_sp r ('|' :: ['\n']) (by intro x hx; simp at hx; subst hx; decide)
+        simpa [restLine] using this
+      have h2 : span ws ['\n'] = (['\n'], []) := by decide
+      have h3 : alignCol [] = none := by decide
+      simp only [delimRest, h1, h2, h3]
+      rfl
+  | c :: cs, fuel, hf, hd, r => by
+    obtain ⟨f, rfl⟩ : ∃ f, fuel = f + 1 := ⟨fuel - 1, by simp at hf; omega⟩
+    have hc := hd c (by simp)
+    obtain ⟨x, xs, hx, hxc⟩ := core_ne c hc
+    have h1 : span ws (sp r ++ restLine trail (c :: cs)) = (sp r, restLine trail (c :: cs)) :=
+      span_ws_sp r _ (by intro y hy; simp [restLine] at hy; subst hy; decide)
+    have h2 : span ws (sp c.padL ++ (c.core ++ (sp c.padR ++ restLine trail cs))) = (sp c.padL, c.core ++ (sp c.padR ++ restLine trail cs)) :=
+      span_ws_sp _ _ (by
+        intro y hy; rw [hx] at hy; simp at hy; subst hy
+        rcases hxc with rfl | rfl <;> decide)
+    have h3 := alignCol_core c hc _ (rest_brk trail c.padR cs)
+    have ih := delimRest_rest trail cs f (by simp at hf; omega) (fun y hy => hd y (List.mem_cons_of_mem _ hy)) c.padR
+    simp only [delimRest, h1]
+    simp only [restLine, h2, h3, ih]
+
+theorem restLine_len (trail : Bool) : ∀ (cs : List DCell), cs.length < (restLine trail cs).length
+  | [] => by cases trail <;> simp [restLine]
+  | c :: cs => by
+    have := restLine_len trail cs
+    simp only [restLine, List.length_cons, List.length_append]
+    omega
+
+/-- **`Table.delimiter_row_pattern` matches a written delimiter row** -/
+theorem delimiterRow_line (d : DRow) (hne : d.cells ≠ []) (hd : ∀ c ∈ d.cells, 1 ≤ c.dashes) : delimiterRow d.line = true := by
+  obtain ⟨c0, cs, hcs⟩ := List.exists_cons_of_ne_nil hne
+  have hl := drow_line d c0 cs hcs
+  have hc := hd c0 (by rw [hcs]; simp)
+  obtain ⟨x, xs, hx, hxc⟩ := core_ne c0 hc
+  have hxw : ws x = false := by rcases hxc with rfl | rfl <;> decide
+  have hxb : x ≠ '|' := by rcases hxc with rfl | rfl <;> decide
+  have h2 : span ws (sp c0.padL ++ (c0.core ++ (sp c0.padR ++ restLine d.trail cs))) =
+      (sp c0.padL, c0.core ++ (sp c0.padR ++ restLine d.trail cs)) :=
+    span_ws_sp _ _ (by intro y hy; rw [hx] at hy; simp at hy; subst hy; exact hxw)
+  have h3 := alignCol_core c0 hc _ (rest_brk d.trail c0.padR cs)
+  have hlen : cs.length < d.line.length + 1 := by
+    have := restLine_len d.trail cs
+    rw [hl]; simp only [List.length_append]; omega
+  have ih := delimRest_rest d.trail cs (d.line.length + 1) hlen (fun y hy => hd y (by rw [hcs]; exact List.mem_cons_of_mem _ hy)) c0.padR
+  unfold delimiterRow
+  cases hlead : d.lead with
+  | true =>
+    rw [hlead] at hl
+    simp only [if_true, List.singleton_append] at hl
+    have h1 : span ws d.line = ([], d.line) := by rw [hl]; simp [span, show ws '|' = false by decide]
+    simp only [h1]
+    conv => lhs; rw [hl]
+    simp only [h2, h3]
+    rw [← hl]; exact ih
+  | false =>
+    rw [hlead] at hl
+    simp only [Bool.false_eq_true, if_false, List.nil_append] at hl
+    have h1 : span ws d.line = (sp c0.padL, c0.core ++ (sp c0.padR ++ restLine d.trail cs)) := by rw [hl]; exact h2
+    have h4 : span ws (c0.core ++ (sp c0.padR ++ restLine d.trail cs)) = ([], c0.core ++ (sp c0.padR ++ restLine d.trail cs)) := by
+      rw [hx]; simp [span, hxw]
+    simp only [h1]
+    rw [hx] at h3 h4 ⊢
+    rcases hxc with rfl | rfl
+    · simp only [List.cons_append] at h3 h4 ⊢
+      change (match alignCol (span ws (':' :: (xs ++ (sp c0.padR ++ restLine d.trail cs)))).snd with
+        | some (_, r3) => delimRest (List.length d.line + 1) r3
+        | none => false) = true
+      simp only [h4, h3]
+      exact ih
+    · simp only [List.cons_append] at h3 h4 ⊢
+      change (match alignCol (span ws ('-' :: (xs ++ (sp c0.padR ++ restLine d.trail cs)))).snd with
+        | some (_, r3) => delimRest (List.length d.line + 1) r3
+        | none => false) = true
+      simp only [h4, h3]
+      exact ih
+
+/-! `column_align_pattern.findall` and `parse_align` -/
+
+theorem alignCols_nil : ∀ (fuel : Nat), alignCols fuel [] = []
+  | 0 => rfl
+  | _ + 1 => rfl
+
+theorem alignCols_skip (c : Char) (hc : c = ' ' ∨ c = '|' ∨ c = '\n') (rest : Str) (fuel : Nat) :
+    alignCols (fuel + 1) (c :: rest) = alignCols fuel rest := by
+  have h1 : c ≠ ':' := by rcases hc with rfl | rfl | rfl <;> decide
+  have h2 : c ≠ '-' := by rcases hc with rfl | rfl | rfl <;> decide
+  have hs : span (· == '-') (c :: rest) = ([], c :: rest) := by simp [span, h2]
+  have : alignCol (c :: rest) = none := by
+    rw [alignCol_plain _ (by intro r h; exact h1 (List.cons.inj h).1), hs]
+    rfl
+  simp only [alignCols, this]
+
+theorem alignCols_sp (rest : Str) (fuel : Nat) : ∀ (n : Nat), alignCols (fuel + n) (sp n ++ rest) = alignCols fuel rest
+  | 0 => by simp [sp]
+  | n + 1 => by
+    have : sp (n + 1) ++ rest = ' ' :: (sp n ++ rest) := by simp [sp, List.replicate_succ]
+    rw [this, ← Nat.add_assoc, alignCols_skip ' ' (Or.inl rfl), alignCols_sp rest fuel n]
+
+theorem alignCols_core (d : DCell) (hd : 1 ≤ d.dashes) (tail : Str) (ht : Brk tail) (fuel : Nat) :
+    alignCols (fuel + 1) (d.core ++ tail) = d.core :: alignCols fuel tail := by
+  have h := alignCol_core d hd tail ht
+  obtain ⟨x, xs, hx, _⟩ := core_ne d hd
+  rw [hx] at h ⊢
+  simp only [List.cons_append] at h ⊢
+  simp only [alignCols, h]
+
+theorem core_len (d : DCell) (hd : 1 ≤ d.dashes) : 1 ≤ d.core.length := by
+  obtain ⟨x, xs, hx, _⟩ := core_ne d hd
+  rw [hx]; simp
+
+theorem alignCols_rest (trail : Bool) : ∀ (cs : List DCell), (∀ c ∈ cs, 1 ≤ c.dashes) → ∀ (r fuel : Nat),
+    (sp r ++ restLine trail cs).length ≤ fuel → alignCols fuel (sp r ++ restLine trail cs) = cs.map DCell.core
+  | [], _, r, fuel, hf => by
+    obtain ⟨f, rfl⟩ : ∃ f, fuel = f + r := ⟨fuel - r, by simp [sp] at hf; omega⟩
+    rw [alignCols_sp]
+    cases trail with
+    | false =>
+      obtain ⟨f', rfl⟩ : ∃ f', f = f' + 1 := ⟨f - 1, by simp [sp, restLine] at hf; omega⟩
+      simp only [restLine, Bool.false_eq_true, if_false, List.nil_append]
+      rw [alignCols_skip '\n' (Or.inr (Or.inr rfl)), alignCols_nil]; rfl
+    | true =>
+      obtain ⟨f', rfl⟩ : ∃ f', f = f' + 1 + 1 := ⟨f - 2, by simp [sp, restLine] at hf; omega⟩
+      simp only [restLine, if_true, List.singleton_append]
+      rw [alignCols_skip '|' (Or.inr (Or.inl rfl)), alignCols_skip '\n' (Or.inr (Or.inr rfl)), alignCols_nil]; rfl
+  | c :: cs, hd, r, fuel, hf => by
+    have hc := hd c (by simp)
+    have hcl := core_len c hc
+    simp only [restLine, List.length_append, List.length_cons, sp, List.length_replicate] at hf
+    obtain ⟨f, rfl⟩ : ∃ f, fuel = (((f + 1) + c.padL) + 1) + r := ⟨fuel - r - 1 - c.padL - 1, by omega⟩
+    have ih := alignCols_rest trail cs (fun y hy => hd y (List.mem_cons_of_mem _ hy)) c.padR f
+      (by simp only [List.length_append, sp, List.length_replicate]; omega)
+    rw [alignCols_sp]
+    simp only [restLine]
+    rw [alignCols_skip '|' (Or.inr (Or.inl rfl)), alignCols_sp, alignCols_core c hc _ (rest_brk trail c.padR cs), ih]
+    rfl
+
+theorem sp_len (n : Nat) : (sp n).length = n := by simp [sp]
+
+theorem findAligns_line (d : DRow) (hne : d.cells ≠ []) (hd : ∀ c ∈ d.cells, 1 ≤ c.dashes) :
+    findAligns d.line = d.cells.map DCell.core := by
+  obtain ⟨c0, cs, hcs⟩ := List.exists_cons_of_ne_nil hne
+  have hl := drow_line d c0 cs hcs
+  have hc := hd c0 (by rw [hcs]; simp)
+  have hcl := core_len c0 hc
+  have hd' : ∀ c ∈ cs, 1 ≤ c.dashes := fun y hy => hd y (by rw [hcs]; exact List.mem_cons_of_mem _ hy)
+  unfold findAligns
+  rw [hcs, hl]
+  cases d.lead with
+  | false =>
+    simp only [Bool.false_eq_true, if_false, List.nil_append, List.length_append, sp_len]
+    obtain ⟨f, hf⟩ : ∃ f, c0.padL + (c0.core.length + (c0.padR + (restLine d.trail cs).length)) + 1 = (f + 1) + c0.padL :=
+      ⟨c0.core.length + (c0.padR + (restLine d.trail cs).length) - 1 + 1, by omega⟩
+    rw [hf]
+    have ih := alignCols_rest d.trail cs hd' c0.padR f (by simp only [List.length_append, sp_len]; omega)
+    rw [alignCols_sp, alignCols_core c0 hc _ (rest_brk d.trail c0.padR cs), ih]
+    rfl
+  | true =>
+    simp only [if_true, List.singleton_append, List.length_cons, List.length_append, sp_len]
+    obtain ⟨f, hf⟩ : ∃ f, c0.padL + (c0.core.length + (c0.padR + (restLine d.trail cs).length)) + 1 + 1 = ((f + 1) + c0.padL) + 1 :=
+      ⟨c0.core.length + (c0.padR + (restLine d.trail cs).length) - 1 + 1, by omega⟩
+    rw [hf]
+    have ih := alignCols_rest d.trail cs hd' c0.padR f (by simp only [List.length_append, sp_len]; omega)
+    rw [alignCols_skip '|' (Or.inr (Or.inl rfl)), alignCols_sp, alignCols_core c0 hc _ (rest_brk d.trail c0.padR cs), ih]
+    rfl
+
+theorem parseAlign_core (d : DCell) (hd : 1 ≤ d.dashes) : parseAlign d.core = .ok d.align := by
+  obtain ⟨m, hm⟩ : ∃ m, d.dashes = m + 1 := ⟨d.dashes - 1, by omega⟩
+  have h1 : ('-' :: List.replicate m '-').getLast? = some '-' := by
+    rw [← List.replicate_succ, List.getLast?_replicate]; simp
+  have h2 : ∀ (x : Char) (l : Str), (x :: (l ++ [':'])).getLast? = some ':' := by
+    intro x l; rw [← List.cons_append, List.getLast?_concat]
+  have h3 : (':' :: '-' :: List.replicate m '-').getLast? = some '-' := by rw [List.getLast?_cons_cons, h1]
+  unfold parseAlign DCell.core DCell.align
+  rw [hm]
+  cases d.cl <;> cases d.cr <;> simp [List.replicate_succ, h1, h2, h3]
+
+theorem mapRes_cores : ∀ (cs : List DCell), (∀ c ∈ cs, 1 ≤ c.dashes) → mapRes parseAlign (cs.map DCell.core) = .ok (cs.map DCell.align)
+  | [], _ => rfl
+  | c :: cs, h => by
+    simp only [List.map_cons, mapRes, parseAlign_core c (h c (by simp)), mapRes_cores cs (fun y hy => h y (List.mem_cons_of_mem _ hy))]
+
+/-! the line itself -/
+
+theorem mem_joinBar (c : Char) : ∀ (l : List Str), c ∈ joinBar l → c = '|' ∨ ∃ t ∈ l, c ∈ t
+  | [], h => by simp [joinBar] at h
+  | [t], h => by
+    simp only [joinBar] at h
+    exact Or.inr ⟨t, by simp, h⟩
+  | t :: t' :: r, h => by
+    rw [joinBar_cons2] at h
+    rcases List.mem_append.mp h with h | h
+    · exact Or.inr ⟨t, by simp, h⟩
+    · rcases List.mem_cons.mp h with h | h
+      · exact Or.inl h
+      · rcases mem_joinBar c (t' :: r) h with h | ⟨u, hu, hc⟩
+        · exact Or.inl h
+        · exact Or.inr ⟨u, List.mem_cons_of_mem _ hu, hc⟩
+
+theorem mem_text (d : DCell) (c : Char) (h : c ∈ d.text) : c = ' ' ∨ c = ':' ∨ c = '-' := by
+  simp only [DCell.text, sp, List.mem_append, List.mem_replicate] at h
+  rcases h with (((h | h) | h) | h) | h
+  · exact Or.inl h.2
+  · simp at h; exact Or.inr (Or.inl h.2)
+  · exact Or.inr (Or.inr h.2)
+  · simp at h; exact Or.inr (Or.inl h.2)
+  · exact Or.inl h.2
+
+theorem drow_lineOk (d : DRow) : LineOk d.line := by
+  refine ⟨(if d.lead then ['|'] else []) ++ (joinBar (d.cells.map DCell.text) ++ (if d.trail then ['|'] else [])), rfl, ?_⟩
+  have hc : ∀ c ∈ (if d.lead then ['|'] else []) ++ (joinBar (d.cells.map DCell.text) ++ (if d.trail then ['|'] else [])),
+      c = '|' ∨ c = ' ' ∨ c = ':' ∨ c = '-' := by
+    intro c hc
+    rcases List.mem_append.mp hc with h | h
+    · simp at h; exact Or.inl h.2
+    · rcases List.mem_append.mp h with h | h
+      · rcases mem_joinBar c _ h with h | ⟨t, ht, hct⟩
+        · exact Or.inl h
+        · obtain ⟨dc, _, rfl⟩ := List.mem_map.mp ht
+          exact Or.inr (mem_text dc c hct)
+      · simp at h; exact Or.inl h.2
+  constructor
+  · intro c h
+    rcases hc c h with rfl | rfl | rfl | rfl <;> decide
+  · intro h
+    rcases hc _ h with h | h | h | h <;> revert h <;> decide
+
+theorem drow_dash (d : DRow) (hne : d.cells ≠ []) (hd : ∀ c ∈ d.cells, 1 ≤ c.dashes) : d.line.contains '-' = true := by
+  obtain ⟨c0, cs, hcs⟩ := List.exists_cons_of_ne_nil hne
+  have hl := drow_line d c0 cs hcs
+  have hc := hd c0 (by rw [hcs]; simp)
+  obtain ⟨m, hm⟩ : ∃ m, c0.dashes = m + 1 := ⟨c0.dashes - 1, by omega⟩
+  have : '-' ∈ c0.core := by
+    unfold DCell.core
+    rw [hm, List.replicate_succ]
+    simp
+  rw [hl]
+  simp [this]
+
+
+/-- the delimiter row as written (decidable): one or more cells, each with at least one hyphen; the row has a `|`
+    (`Table.read` collects lines while they have one: with one column, a leading or a trailing pipe).  That
+    `Table.delimiter_row_pattern` matches such a line and that `column_align_pattern.findall` + `parse_align` give the
+    alignments of its cells is proved (`delimiterRow_line`, `findAligns_line`, `mapRes_cores`). -/
 def drowOk (d : DRow) : Bool :=
-  !d.cells.isEmpty && d.cells.all (fun c => decide (1 ≤ c.dashes)) && d.line.contains '|' && d.line.contains '-'
-    && delimiterRow d.line && alignsB d.line d.aligns && oneLine d.line && !d.line.contains '\t'
+  !d.cells.isEmpty && d.cells.all (fun c => decide (1 ≤ c.dashes)) && d.line.contains '|'
 
 structure DelimFacts (d : DRow) : Prop where
   ne : d.cells ≠ []
@@ -535,14 +948,12 @@ structure DelimFacts (d : DRow) : Prop where
   line : LineOk d.line
 
 theorem delimFacts_of (d : DRow) (h : drowOk d = true) : DelimFacts d := by
-  simp only [drowOk, Bool.and_eq_true, Bool.not_eq_eq_eq_not, Bool.not_true, List.isEmpty_eq_false_iff] at h
-  obtain ⟨⟨⟨⟨⟨⟨⟨h0, _⟩, h2⟩, h3⟩, h4⟩, h5⟩, h6⟩, h7⟩ := h
-  refine ⟨h0, h2, h3, h4, ?_, lineOk_of _ h6 h7⟩
-  unfold alignsB at h5
-  split at h5
-  · rename_i a ha
-    rw [ha, eq_of_beq h5]
-  · cases h5
+  simp only [drowOk, Bool.and_eq_true, Bool.not_eq_eq_eq_not, Bool.not_true, List.isEmpty_eq_false_iff, List.all_eq_true,
+    decide_eq_true_eq] at h
+  obtain ⟨⟨h0, h1⟩, h2⟩ := h
+  refine ⟨h0, h2, drow_dash d h0 h1, delimiterRow_line d h0 h1, ?_, drow_lineOk d⟩
+  rw [findAligns_line d h0 h1]
+  exact mapRes_cores d.cells h1
 
 /-- The two new kinds of leaves.
     * `table hdr del rows`: a GFM table - the header row, the delimiter row, the body rows, each as written.
@@ -579,14 +990,16 @@ def Leaf.entry (n : Nat) : Leaf → Entry
   | .table h d rows => .table (h.line :: d.line :: rows.map Row.line) n n n
   | .icode ls => .blockCode (ls.map codePiece) n n
 
-/-- the content of an indented code block: what `BlockCode.read` keeps of the lines, joined -/
+/-- the content `BlockCode.__init__` computes: what `BlockCode.read` keeps of the lines, joined, `strip('\n')`, "\n"; for a
+    written block this is the joined text itself (`codeContent_eq`) -/
 def codeContent (ls : List Str) : Str := Document.stripNl (ls.map codePiece).flatten ++ ['\n']
 
 /-- the block token expected for a leaf: a `Table` with the column alignments, the header `TableRow` (line `n`) and the
-    body `TableRow`s (lines `n + 2`, …), each with its `TableCell`s; a `BlockCode` with the content -/
+    body `TableRow`s (lines `n + 2`, …), each with its `TableCell`s; a `BlockCode` whose content is every line minus its first
+    four columns (`codePiece`), joined -/
 def Leaf.block (n : Nat) : Leaf → Mistletoe.Block
   | .table h d rows => .table d.aligns [rowBlock d.aligns n h] (rowBlocks d.aligns (n + 2) rows) n
-  | .icode ls => .blockCode (codeContent ls) n
+  | .icode ls => .blockCode (ls.map codePiece).flatten n
 
 structure TableFacts (h : Row) (d : DRow) (rows : List Row) : Prop where
   hdr : RowFacts h
@@ -780,7 +1193,10 @@ theorem mkBlock_leaf (cfg : Document.Cfg) (fn : Footnotes.Table) (ht : ∀ t ∈
     have hal : d.aligns ≠ [] := by simpa [DRow.aligns] using hf.del.ne
     simp only [Leaf.entry, Leaf.block, mkBlock, hf.del.dash, if_true, hf.del.al, tableRow_row cfg fn ht _ hal n h hf.hdr,
       tableRows_rows cfg fn ht _ hal rows (n + 2) hf.rows]
-  | .icode ls, _, n => by simp only [Leaf.entry, Leaf.block, mkBlock, codeContent]
+  | .icode ls, hok, n => by
+    have e := codeContent_eq ls hok
+    unfold codeContent at e
+    simp only [Leaf.entry, Leaf.block, mkBlock, e]
 
 /-- `<th align="…">text</th>` + newline (`<td` in the body); the text with `&`, `<`, `>` (and the quotes, as the options
     say) escaped -/
@@ -819,7 +1235,7 @@ def tableHtml (q : Quotes) (h : Row) (d : DRow) (rows : List Row) : Str :=
 
 def Leaf.html (q : Quotes) : Leaf → Str
   | .table h d rows => tableHtml q h d rows
-  | .icode ls => fenceHtml q [] (codeContent ls)
+  | .icode ls => fenceHtml q [] (ls.map codePiece).flatten
 
 theorem escape_nil (q : Quotes) : escapeHtmlText q.dq q.sq [] = [] := by simp [escapeHtmlText, mapChars]
 
@@ -954,8 +1370,8 @@ def isList4 : T4 → Bool
   | .list .. => true
   | _ => false
 
-/-- lists and fenced code blocks: blocks that C05 does not count as closed by a blank line (an unclosed fence, the last item
-    of a list go on behind it); here the dispatcher is followed over them directly -/
+/-- lists, fenced and indented code blocks: blocks that C05 does not count as closed by a blank line (an unclosed fence, the
+    last item of a list, an indented code block go on behind it); here the dispatcher is followed over them directly -/
 def isOpen4 : T4 → Bool
   | .list .. => true
   | .fence .. => true
@@ -984,8 +1400,10 @@ mutual
       more blocks; the items of a tight list have one block each.
     Quote: in addition no setext heading inside, at any depth (`hasSxs`).
     Fenced code block: `fenceOkB`.  Setext heading: the text lines as for a paragraph; the underline `ulOk`.
+    Table, indented code block: `Leaf.ok`.
     Siblings (`T4.oks`): a list is not followed by a list, and the block that follows a list begins with a
-    non-whitespace character and carries no list marker (`sepOk4`). -/
+    non-whitespace character and carries no list marker; the block that follows an indented code block does not begin
+    with four spaces (`sepOk4`). -/
 def T4.ok : T4 → Bool
   | .para ls => !ls.isEmpty && ls.all (fun l => inertLine l && proseLine l && oneLine l && !l.contains '\t')
       && inertBody (joinNl (ls.map strip))
